@@ -120,10 +120,15 @@ func init() {
 		out := fs.String("out", "", "outcomes JSON")
 		_ = fs.Parse(args)
 		var all []chunkx.CancelOutcome
+		hangs := 0
 		for _, buffers := range []int{0, 1, 2, 1000} {
 			for _, stop := range []bool{true, false} {
-				for i := 0; i < *n; i++ {
-					all = append(all, chunkx.CancelRun(buffers, 1+i%3, stop, i%5, 6))
+				for i := 0; i < *n && hangs < 5; i++ { // every hang costs a watchdog period
+					o := chunkx.CancelRun(buffers, 1+i%3, stop, i%5, 6)
+					if o.Outcome == "hang" {
+						hangs++
+					}
+					all = append(all, o)
 				}
 			}
 		}
